@@ -30,10 +30,18 @@ vars == <<prog, dim, topo, anchor, phase, cur, focus, nd, rk>>
 D0 == [op |-> "", dst |-> 1, src |-> 0, n |-> 0, topo |-> "C", k |-> "x", var |-> 0, den |-> 1, mod |-> 0,
        v |-> <<>>, w |-> <<>>, vs |-> <<>>, cs |-> <<>>, gs |-> <<>>]
 Init == /\ prog = <<>> /\ dim = [s \in Slots |-> -1] /\ topo = [s \in Slots |-> "C"]
-        /\ anchor = [s \in Slots |-> [i \in 1..MaxDim |-> RE(-1..1)]]
-        /\ phase = "op" /\ cur = "none" /\ focus = 1 /\ nd \in {RE(0..3)} /\ rk \in {IF "chain" \in OpSet THEN "chain" ELSE RE({"op", "op", "copy"})}
+        /\ anchor = [s \in Slots |-> [i \in 1..MaxDim |-> 0]]
+        /\ phase = "setup" /\ cur = "none" /\ focus = 1 /\ nd = 0 /\ rk = "op"
+\* TLC evaluates Init ONCE per run, also in simulation mode: every random draw that must differ from one history to the next (anchors,
+\* number of state drivers, kind of recipe) is made by this first step, not by Init
+Setup == /\ phase = "setup" /\ phase' = "op"
+         /\ anchor' = Mat([s \in 1..3 |-> Mat([i \in 1..MaxDim |-> RE(-1..1)])])
+         /\ nd' \in {RE(0..3)} /\ rk' \in {IF "chain" \in OpSet THEN "chain" ELSE RE({"op", "op", "copy"})}
+         /\ UNCHANGED <<prog, dim, topo, cur, focus>>
 Alive(s) == dim[s] >= 0
 AliveS == {s \in Slots : Alive(s)}
+\* the step of a powerset "copy" recipe in which the copy receives a further disjunct: its arguments are drawn around the original's anchor
+ShareNow == Recipe /\ Shape \in {"psetC", "psetN"} /\ rk = "copy" /\ Len(prog) = 3 + nd
 \* NOTE: a zero-arity definition built from constants only would be evaluated ONCE by TLC and cached; the dummy parameter prevents that
 Ill(x) == RE(1..100) <= IllShare
 \* a constraint over n dimensions that the anchor a satisfies (kind k)
@@ -41,7 +49,7 @@ Friendly(a, n, k) == LET mk(t, sl) == Mat(<<(-Dot(t, a)) + (IF k = "eq" THEN 0 E
                      IN CHOOSE r \in {mk(t, sl) : t \in {Vec(n)}, sl \in {RE(0..2)}} : TRUE
 AnyCon(n) == Mat(<<RE(Coef)>> \o Vec(n))
 ConKinds(t) == IF t = "NNC" THEN {"ge", "ge", "eq", "gt"} ELSE {"ge", "ge", "eq"}
-ConFor(s, n) == CHOOSE c \in {[k |-> k, v |-> IF RE(1..4) <= 3 THEN Friendly(anchor[s], n, k) ELSE AnyCon(n)] : k \in {RE(ConKinds(topo[s]))}} : TRUE
+ConFor(s, n) == CHOOSE c \in {[k |-> k, v |-> IF RE(1..4) <= 3 THEN Friendly(anchor[IF ShareNow THEN 1 ELSE s], n, k) ELSE AnyCon(n)] : k \in {RE(ConKinds(topo[s]))}} : TRUE
 \* generator near the anchor: points anchor+delta (divisor 1 or 2), rays/lines random
 \* (shape mode: mostly points, so that many elements are bounded and the deduction rules of the weakly relational transformers are reached)
 GenKinds(t) == IF Shape # "poly" THEN {"point", "point", "point", "point", "point", "ray", "line"}
@@ -50,8 +58,8 @@ GenOf(kinds, a, n) == LET mk(k, d, t) == [k |-> k, v |-> IF k \in {"point", "cpo
                                    THEN Mat(<<d>> \o [i \in 1..n |-> d * a[i] + RE(-1..1)])
                                    ELSE Mat(<<0>> \o (IF n > 0 /\ \A i \in 1..n : t[i] = 0 THEN [i \in 1..n |-> IF i = 1 THEN 1 ELSE 0] ELSE t))]
                      IN CHOOSE g \in {mk(k, d, t) : k \in {RE(kinds)}, d \in {RE({1, 1, 2})}, t \in {Vec(n)}} : TRUE
-GenFor(s, n) == GenOf(GenKinds(topo[s]), anchor[s], n)
-PointFor(s, n) == [k |-> "point", v |-> Mat(<<1>> \o [i \in 1..n |-> anchor[s][i] + RE(-1..1)])]
+GenFor(s, n) == GenOf(GenKinds(topo[s]), anchor[IF ShareNow THEN 1 ELSE s], n)
+PointFor(s, n) == [k |-> "point", v |-> Mat(<<1>> \o [i \in 1..n |-> anchor[IF ShareNow THEN 1 ELSE s][i] + RE(-1..1)])]
 Emit(rec) == prog' = Append(prog, rec)
 Keep == UNCHANGED <<dim, topo, anchor>>
 CtorOps == {"new", "from_cs", "from_gs", "from_cgs"}
@@ -103,7 +111,11 @@ OpOK(op) == IF op \in CtorOps THEN TRUE ELSE AliveS # {}
 \*                                slot 2), slot 2 := slot 1 by assignment / copy / swap, a mutator on the copy, two observers
 \*                        "chain" (C08, selected by the pseudo-operation "chain" in OpSet): an ascending chain  x_0, x_{k+1} = W(x_k grown, x_k):
 \*                                ctor on slot 1, then 2 + nd times [slot 2 := copy of slot 1; grow slot 1; widen slot 1 with slot 2]
-RecipeLen == IF rk = "op" THEN 5 + nd ELSE IF rk = "chain" THEN 1 + 3 * (2 + nd) ELSE 6 + nd
+\* powerset "copy" recipes have one more step: the copy first gets a further disjunct (drawn around the ORIGINAL's anchor, so that it often
+\* contains, or is adjacent to, a disjunct the two objects share), and only then the mutator (mostly a reduction, which merges disjuncts
+\* in place): an operation on the copy that writes through a shared disjunct shows up in the frame condition of the original
+PsetShare == Pset /\ rk = "copy"
+RecipeLen == IF rk = "op" THEN 5 + nd ELSE IF rk = "chain" THEN 1 + 3 * (2 + nd) ELSE IF PsetShare THEN 7 + nd ELSE 6 + nd
 GrowOps == ({"add_generator", "add_generator", "add_generators", "gen_affine_image", "affine_image", "add_constraint", "unconstrain"}
             \cup (IF Pset THEN {"add_disjunct", "add_disjunct_gs"} ELSE {})) \cap OpSet
 AfterCopy == Recipe /\ rk = "copy" /\ Len(prog) > 2 + nd
@@ -118,6 +130,10 @@ RecipeOp == LET L == Len(prog) IN
             ELSE IF L < 2 + nd THEN (IF rk = "copy" /\ RE(1..4) = 1 /\ Shape = "poly" THEN "H79_widening" ELSE IF Shape = "poly" THEN RE(DriverOps) ELSE ShapeDriver(ShapeDrivers))
             ELSE IF rk = "op" THEN (IF L = 2 + nd THEN RE(RecipeTargets) ELSE IF L = 3 + nd THEN "min_constraints" ELSE IF Shape = "poly" THEN "min_generators" ELSE "is_empty")
             ELSE IF L = 2 + nd THEN RE({"assign", "assign", "copy_from", "swap"})
+            ELSE IF PsetShare /\ L = 3 + nd THEN RE({"add_disjunct", "add_disjunct", "add_disjunct_gs"})
+            ELSE IF PsetShare /\ L = 4 + nd THEN (IF RE(1..3) <= 2 THEN RE({"pairwise_reduce", "pairwise_reduce", "omega_reduce", "collapse"})
+                                                  ELSE RE(RecipeTargets \cap (ConOps \cup ConsOps \cup GenOps \cup GensOps \cup BinMut \cup WidOps \cup UnMut \cup ImgOps \cup DimUp \cup DimDown \cup DimOther)))
+            ELSE IF PsetShare THEN (IF L = 5 + nd THEN "min_constraints" ELSE "is_empty")
             ELSE IF L = 3 + nd THEN RE(RecipeTargets \cap (ConOps \cup ConsOps \cup GenOps \cup GensOps \cup BinMut \cup WidOps \cup UnMut \cup ImgOps \cup DimUp \cup DimDown \cup DimOther))
             ELSE IF L = 4 + nd THEN "min_constraints" ELSE IF Shape = "poly" THEN "min_generators" ELSE "is_empty"
 ChooseOp == /\ phase = "op" /\ Len(prog) < (IF Recipe THEN RecipeLen ELSE MaxLen)
@@ -253,7 +269,7 @@ Args ==
              \/ cur = "dumpload" /\ Emit([D0 EXCEPT !.op = cur, !.dst = t, !.src = s, !.n = dim[t], !.topo = topo[t]])
                   /\ dim' = [dim EXCEPT ![s] = dim[t]] /\ topo' = [topo EXCEPT ![s] = topo[t]] /\ anchor' = [anchor EXCEPT ![s] = anchor[t]]
              \/ cur = "destroy" /\ RE(1..4) = 1 /\ Emit([D0 EXCEPT !.op = cur, !.dst = s]) /\ dim' = [dim EXCEPT ![s] = -1] /\ UNCHANGED <<topo, anchor>>
-Next == ChooseOp \/ Args
+Next == Setup \/ ChooseOp \/ Args
 Spec == Init /\ [][Next]_vars
 EmitProg == ((IF Recipe THEN Len(prog) = RecipeLen ELSE Len(prog) \in {MaxLen \div 2, MaxLen}) /\ phase = "op") => PrintT(<<"PROG", ToJson(prog)>>)
 =====================================================================
